@@ -437,6 +437,11 @@ type C02DialsCase struct {
 	ShareLayers  []ShareL    `json:"share_layers,omitempty"`
 	ShareWithin  []SharePair `json:"share_within,omitempty"`
 	ShareInMaps  bool        `json:"share_in_maps,omitempty"`
+	// ScribbleDefaultsAt: after that many reports the CALLER overwrites its own
+	// defaults struct in place (0 = right after Config, negative = never); the
+	// library's versions must keep following the defaults as they were when
+	// Config was called
+	ScribbleDefaultsAt int `json:"scribble_defaults_at,omitempty"`
 	ScribbleAt   int         `json:"scribble_at"` // scribble over the version current after this many reports
 }
 
@@ -461,7 +466,8 @@ func genC02Dials(t *rapid.T) C02DialsCase {
 	}
 	sw := genShareWithin(t, nodes, &d)
 	sd, sl := genShares(t, nodes, &d)
-	return C02DialsCase{Data: d, Sources: ns, Src: src, ShareDefault: sd, ShareLayers: sl, ShareWithin: sw, ShareInMaps: rapid.Bool().Draw(t, "share_in_maps"), ScribbleAt: rapid.IntRange(0, len(d.Layers)).Draw(t, "scribble_at")}
+	return C02DialsCase{Data: d, Sources: ns, Src: src, ShareDefault: sd, ShareLayers: sl, ShareWithin: sw, ShareInMaps: rapid.Bool().Draw(t, "share_in_maps"), ScribbleAt: rapid.IntRange(0, len(d.Layers)).Draw(t, "scribble_at"),
+		ScribbleDefaultsAt: rapid.IntRange(-2, len(d.Layers)).Draw(t, "scribble_defaults_at") + 1}
 }
 
 func runC02Dials(c C02DialsCase) vrt.Verdict {
@@ -515,6 +521,7 @@ func runC02Dials(c C02DialsCase) vrt.Verdict {
 	}
 	var versions []version
 	scribbled := -1
+	defaultsScribbled, defaultsScribbledAtStep := false, 0
 	observe := func(step int) string {
 		v := d.View()
 		w := expected()
@@ -525,6 +532,15 @@ func runC02Dials(c C02DialsCase) vrt.Verdict {
 		if step == c.ScribbleAt {
 			shape.Scribble(reflect.ValueOf(v).Elem())
 			scribbled = len(versions) - 1
+		}
+		if c.ScribbleDefaultsAt > 0 && step == c.ScribbleDefaultsAt-1 && !defaultsScribbled && len(c.ShareDefault) == 0 {
+			// (not when the harness made a source's value share objects with the
+			// defaults: overwriting the defaults would then also overwrite a value the
+			// source still owns and the library is entitled to re-read)
+			// the caller reuses / overwrites its defaults struct in place
+			shape.Scribble(in.defaults.Elem())
+			defaultsScribbled = true
+			defaultsScribbledAtStep = step
 		}
 		return ""
 	}
@@ -553,8 +569,10 @@ func runC02Dials(c C02DialsCase) vrt.Verdict {
 			return vrt.Violationf("version %d changed after it was published (another version was scribbled over / re-stacked) at %s", i, df)
 		}
 	}
-	if msg := checkInputsPristine(b, cc, in, "after the history"); msg != "" {
-		return vrt.Violationf("%s", msg)
+	if !defaultsScribbled {
+		if msg := checkInputsPristine(b, cc, in, "after the history"); msg != "" {
+			return vrt.Violationf("%s", msg)
+		}
 	}
 	// pairwise disjointness of versions, defaults and reported values
 	type named struct {
@@ -593,6 +611,9 @@ func runC02Dials(c C02DialsCase) vrt.Verdict {
 	if scribbled >= 0 && scribbled < len(versions)-1 {
 		labels = append(labels, "scribbled-before-a-restack")
 	}
+	if defaultsScribbled && defaultsScribbledAtStep < restacks {
+		labels = append(labels, "defaults-overwritten-before-a-restack")
+	}
 	return vrt.OK(restacks >= 1 && refSet >= 1, labels...)
 }
 
@@ -600,7 +621,7 @@ func TestC02Dials(t *testing.T) {
 	vrt.Check(t, vrt.Prop[C02DialsCase]{
 		ID: "C02", Name: "dials",
 		Rule: "a compiled config type with maps, slices, pointers, pointer-to-pointer, nested and pointer structs, embedded struct and skipped fields, stacked by a real Dials from 1..3 fake watching sources; histories of 0..7 blocking re-stacks with aliased inputs; " +
-			"one published version is scribbled over in the middle of the history; oracles: every view equals the reference model, all versions / defaults / reported values are pairwise address-disjoint, unscribbled versions and inputs never change; " +
+			"one published version is scribbled over in the middle of the history, and in most histories the caller overwrites its own defaults struct in place at some point after Config; oracles: every view equals the reference model, all versions / defaults / reported values are pairwise address-disjoint, unscribbled versions and inputs never change; " +
 			"non-trivial = at least one re-stack and a leaf set by a layer; distinct = distinct case JSON",
 		Assumptions: []string{"updates are delivered with BlockingReportNewValue so that the history is deterministic without owning the scheduler"},
 		Gen:         genC02Dials, Run: runC02Dials,
